@@ -229,7 +229,7 @@ def objs_coq(objs):
 
 
 def faults_coq(faults):
-    return C.coq_list([f'({KIND_COQ[f[0]]}, {f[1]})' for f in faults])
+    return C.coq_list([f"({KIND_COQ[f[0]]}, {f[1]}, {C.coq_bool(len(f) > 2 and f[2] == 'ki')})" for f in faults])
 
 
 def bools_coq(bs):
